@@ -271,3 +271,41 @@ def deep_table(ctx, n, props=('C02', 'C03', 'C14')):
         ctx.ev(n)
         ctx.count('deep_table_incarnations', n)
         ctx.counters['deep_table_depth'] = max(ctx.counters.get('deep_table_depth', 0), n)
+
+
+def long_history(ctx, rng, cands, n, kind_prefix=''):
+    """One connection with n recorded messages (long sessions are ordinary: a client drawing at 60 fps logs 100 000 lines in
+    ten minutes), then, with that connection selected: the `connection` listing counts them all, the oldest message can
+    still be listed, and the matched / didn't match / not checked counts of a capped listing add up to n."""
+    from . import outline as ol
+    st = streams.build(rng, cands, k=1, n_each=n, tagged=True, opts={'hot': 0.7, 'reuse_bias': 0.5, 'prompt_delete': 1.0, 'first': 'get_registry', 'big_gaps': 0.0})
+    lines = [e['line'] for e in st['entries']]
+    s = Session()
+    s.feed([l + '\n' for l in lines], cleanup=False)
+    total = len(lines)
+    case = {'long_history': total, 'lines_head': lines[:3]}
+    ctx.ev(total)
+    ctx.counters['long_history_messages'] = max(ctx.counters.get('long_history_messages', 0), total)
+
+    def run(cmd):
+        n0 = len(s.events)
+        s.command(cmd)
+        return [ol.strip_sgr(p) for k, p in s.events[n0:] if k == 'out']
+    run('connection A')
+    listing = run('connection')
+    m = [LIST_RE.match(l) for l in listing]
+    counts = [int(x.group(7)) for x in m if x]
+    if counts != [total]:
+        ctx.violation(kind_prefix + 'recorded-count', '%d messages arrived on connection A, the `connection` listing says %r' % (total, listing[:2]), case)
+        return
+    out = run('list wl_display.get_registry')
+    first = [ol.parse_line(l) for l in out]
+    if not any(it['kind'] == 'msg' and it['name'] == 'get_registry' for it in first):
+        ctx.violation(kind_prefix + 'oldest-lost', 'with connection A selected `list wl_display.get_registry` does not show the first of its %d messages: %r' % (total, out[:2]), case)
+        return
+    out = run('list ~ 5')
+    tail = [ol.parse_line(l) for l in out if ol.parse_line(l)['kind'] == 'count']
+    if not tail or tail[0]['matched'] + tail[0]['didnt'] + tail[0]['not_checked'] != total:
+        ctx.violation(kind_prefix + 'counts', '`list ~ 5` on a connection with %d messages reports %r' % (total, [t['text'] for t in tail][:1] or out[-1:]), case)
+        return
+    ctx.count('long_history_checks')
